@@ -215,6 +215,9 @@ def check_replace(s, stats, case):
         r = s.replace(sources=empty)
         if r.sources is not empty:
             stats.fail('C14/replace/signature-override-empty', case, '%s.replace(sources=%r) kept the old sources' % (s, empty))
+    r = s.replace(parameters=(q for q in ps))
+    if [(q.name, q.kind) for q in r.parameters.values()] != [(q.name, q.kind) for q in ps]:
+        stats.fail('C14/replace/signature-parameters-iterable', case, '%s.replace(parameters=<generator of its own parameters>) -> %s (inspect.Signature accepts any iterable)' % (s, r))
     r = s.replace(parameters=[])
     if list(r.parameters.values()) != [] or r.sources is not s.sources:
         stats.fail('C14/replace/signature-override-empty', case, '%s.replace(parameters=[]) -> %s' % (s, r))
@@ -232,7 +235,10 @@ def check_replace(s, stats, case):
         r = q.replace(upgraded_annotation=mark, sources=['S'], source_depths={'S': 1})
         if r.upgraded_annotation is not mark or r.sources != ['S'] or r.source_depths != {'S': 1} or r.name != q.name or r.kind != q.kind:
             stats.fail('C14/replace/parameter-override', dict(case, parameter=q.name), 'Parameter %s .replace(upgraded_annotation=, sources=, source_depths=) did not take the overrides' % q)
-    ev = s.evaluated()
+    try:
+        ev = s.evaluated()
+    except Exception:
+        return      # annotations that cannot be evaluated: evaluated() may say so
     if type(ev) is not type(s):
         stats.fail('C14/replace/evaluated-type', case, '%s.evaluated() is a %s' % (s, type(ev).__name__))
 
@@ -250,8 +256,11 @@ def universe_sigs(spec, mode, future):
     for i, p in enumerate(spec):
         d = None if p.default is None else (repr('d_' + p.name) if i % 2 else str(10 + i))
         a = ['1', "'x'", 'int', 'T'][i % 4] if (mode == 2 or (mode == 1 and i % 2 == 0)) else None
+        if mode == 3:
+            # postponed annotations that cannot be evaluated (names only imported for type checkers)
+            a = ['Missing', 'also.missing', 'T'][i % 3]
         ps.append(p._replace(default=d, ann=a))
-    ret = {0: '', 1: " -> 'ret'", 2: ' -> T'}[mode]
+    ret = {0: '', 1: " -> 'ret'", 2: ' -> T', 3: ' -> MissingToo'}[mode]
     src = 'def f(%s)%s:\n    return 0\n' % (universe.spec_text(tuple(ps)), ret)
     g = realfn.load(src, dict(GLOBS), register=False, flags=__future__.annotations.compiler_flag if future else 0)
     return signatures.signature(g['f'])
@@ -261,7 +270,7 @@ def shard_universe(arg):
     specs, = arg
     st = Stats()
     for spec in specs:
-        for mode, future in ((0, False), (1, False), (2, False), (2, True)):
+        for mode, future in ((0, False), (1, False), (2, False), (2, True), (3, True)):
             check_signature_object(universe_sigs(spec, mode, future), 'universe/mode%d%s' % (mode, '/postponed' if future else ''), st, enum=True)
     return st
 
